@@ -56,6 +56,10 @@ class Prov:
         if isinstance(e, ast.Subscript):
             if self._is_source(e.value):
                 return ""                                          # src[a:b] / src[i]
+            if self.param_atoms and isinstance(e.value, ast.Name) \
+                    and e.value.id in {a.arg for a in self.f.node.args.posonlyargs + self.f.node.args.args + self.f.node.args.kwonlyargs} \
+                    and not any(isinstance(n, ast.Name) and n.id == e.value.id and isinstance(n.ctx, ast.Store) for n in own_nodes(self.f.node)):
+                return ""                                          # inside a helper: a character / slice of the (checked) argument
             if isinstance(e.value, ast.Constant) and isinstance(e.value.value, str):
                 return ""                                          # constant slicing of a literal ("########"[:level])
             if isinstance(e.slice, ast.Slice):
@@ -81,6 +85,8 @@ class Prov:
             # the same token's own field (token.content = token.content[1:-1])
             if e.attr in ("content", "markup", "info") and self.sc.type(e.value) == "Token":
                 return ""
+            if e.attr == "src" and self.sc.type(e.value) in ("StateBlock", "StateInline", "StateCore"):
+                return ""          # the source string itself (handed to a helper that reads from it)
             return f"`{U(e)[:50]}`: not a source-derived value"
         if isinstance(e, ast.Call):
             fn = e.func
@@ -734,6 +740,8 @@ def rule_count(c: Ctx) -> RuleResult:
                             "scanned: the repetition count is the scan's counter, corrected by exactly the number of markers consumed "
                             "before the counting loop minus the counter's initial value")
     from ..valnum import analyse as vn_analyse
+    c = c.normalised("rules_block/")
+    r.notes += c.norm_notes()
     decided = 0
     for f in sorted(c.cg.parse_phase(), key=lambda x: x.qual):
         if not f.module.rel.startswith("rules_block/"):
@@ -791,7 +799,25 @@ def rule_count(c: Ctx) -> RuleResult:
     return r
 
 
-def _count_relation(c: Ctx, f: Func, rd: Reaching, state, stmt: ast.AST, marker: ast.AST, E: ast.AST):
+def _as_read(e: ast.AST | None) -> tuple[ast.AST, ast.AST] | None:
+    """(string expression, index expression) if e reads one character: `S[i]`, or the total accessor `charStrAt(S, i)`."""
+    if isinstance(e, ast.Subscript) and not isinstance(e.slice, ast.Slice):
+        return e.value, e.slice
+    if isinstance(e, ast.Call) and isinstance(e.func, ast.Name) and e.func.id in ("charStrAt",) and len(e.args) == 2 and not e.keywords:
+        return e.args[0], e.args[1]
+    return None
+
+
+def _canon_str(f: Func, e: ast.AST) -> str:
+    """Text of a string expression, a local that only ever holds `<x>.src` replaced by that attribute."""
+    if isinstance(e, ast.Name):
+        ds = [n.value for n in own_nodes(f.node) if isinstance(n, ast.Assign) and any(isinstance(t, ast.Name) and t.id == e.id for t in n.targets)]
+        if ds and all(isinstance(d, ast.Attribute) and U(d) == U(ds[0]) for d in ds) and e.id not in {a.arg for a in f.node.args.args}:
+            return U(ds[0])
+    return U(e)
+
+
+def _count_relation(c: Ctx, f: Func, rd: Reaching, state, stmt: ast.AST, marker: ast.AST, E: ast.AST, _depth: int = 0):
     """-> (counter name, k, d, offset of E over the counter) or a reason string."""
     vcfg, vres, vn = state
     # E = n (+/- const)
@@ -805,6 +831,33 @@ def _count_relation(c: Ctx, f: Func, rd: Reaching, state, stmt: ast.AST, marker:
     if not isinstance(e, ast.Name):
         return "the count is not a counter variable plus a constant"
     n_name = e.id
+    # the count may be a copy of the counter (the result variable of an inlined / extracted scan): n = m on the paths that reach
+    # the markup, constants on paths that the facts at the markup exclude (cnt = 0 ... if cnt < 3: return False)
+    if _depth < 3:
+        copies, consts_, other = [], [], False
+        for n in own_nodes(f.node):
+            if isinstance(n, ast.Assign) and any(isinstance(t, ast.Name) and t.id == n_name for t in n.targets):
+                if isinstance(n.value, ast.Name) and n.value.id != n_name:
+                    copies.append(n.value.id)
+                elif isinstance(n.value, ast.Constant) and isinstance(n.value.value, int) and not isinstance(n.value.value, bool):
+                    consts_.append(n.value.value)
+                else:
+                    other = True
+            elif isinstance(n, (ast.AugAssign, ast.AnnAssign)) and isinstance(n.target, ast.Name) and n.target.id == n_name:
+                other = True
+        if copies and not other and len(set(copies)) == 1:
+            fcfg, fres = c.facts(f)
+            excluded = True
+            for k0 in consts_:
+                for nd in fcfg.owner(stmt):
+                    z = fres.get(nd.id)
+                    if z is not None and not (z.entails("0", n_name, -(k0 + 1)) or z.entails(n_name, "0", k0 - 1)):
+                        excluded = False
+            if excluded:
+                e2: ast.AST = ast.Name(id=copies[0], ctx=ast.Load())
+                if off:
+                    e2 = ast.BinOp(left=e2, op=ast.Add(), right=ast.Constant(value=off))
+                return _count_relation(c, f, rd, state, stmt, marker, e2, _depth + 1)
     inits: list[int] = []
     incs: list[ast.AST] = []
     for n in own_nodes(f.node):
@@ -862,40 +915,43 @@ def _count_relation(c: Ctx, f: Func, rd: Reaching, state, stmt: ast.AST, marker:
         if not guarded:
             return "an increment is not under a test that the character read equals the marker"
     # the source string and the index of the first marker read
-    first_read: ast.Subscript | None = None
-    first_stmt: ast.AST | None = None
+    first_read: ast.AST | None = None
     if isinstance(marker, ast.Name):
         ds = [d for d in rd.at_ast(stmt, marker.id)]
         vals = [d.value for d in ds if d.kind == "assign"]
-        if len(vals) != 1 or not (isinstance(vals[0], ast.Subscript) and not isinstance(vals[0].slice, ast.Slice)):
+        if len(vals) != 1 or _as_read(vals[0]) is None:
             return "the marker is not a single character read of the source"
-        first_read, first_stmt = vals[0], next(iter(ds)).stmt
+        first_read = vals[0]
     else:
-        # constant marker: the earliest `v = S[i]` whose value is compared with the constant
+        # constant marker: the earliest read `S[i]` (directly in the test, or through `v = S[i]`) compared with the constant
         cands = []
         for n in own_nodes(f.node):
-            if isinstance(n, (ast.Assign, ast.AnnAssign)) and n.value is not None and isinstance(n.value, ast.Subscript) \
-                    and not isinstance(n.value.slice, ast.Slice) and c.tf.scope(f).type(n.value.value) == "str":
+            if isinstance(n, (ast.Assign, ast.AnnAssign)) and n.value is not None and _as_read(n.value) is not None:
                 t = n.targets[0] if isinstance(n, ast.Assign) else n.target
                 if isinstance(t, ast.Name) and any(isinstance(x, ast.Compare) and len(x.ops) == 1 and isinstance(x.ops[0], (ast.Eq, ast.NotEq))
                                                    and {U(x.left), U(x.comparators[0])} == {t.id, mtxt} for x in own_nodes(f.node)):
-                    cands.append(n)
+                    cands.append(n.value)
+            elif isinstance(n, ast.Compare) and len(n.ops) == 1 and isinstance(n.ops[0], (ast.Eq, ast.NotEq)):
+                for a_, b_ in ((n.left, n.comparators[0]), (n.comparators[0], n.left)):
+                    if _as_read(a_) is not None and U(b_) == mtxt:
+                        cands.append(a_)
+        cands = [x for x in cands if not any(x is y for y in ast.walk(loop))]
         if not cands:
             return "no first read of the constant marker found"
         cands.sort(key=lambda n: (n.lineno, n.col_offset))
-        first_stmt, first_read = cands[0], cands[0].value          # type: ignore[assignment]
-        if any(cands[0] is x for x in ast.walk(loop)):
-            return "the first read of the marker is inside the counting loop"
-    S = U(first_read.value)
+        first_read = cands[0]
+    fr = _as_read(first_read)
+    S = _canon_str(f, fr[0])          # type: ignore[index]
     # cursor of the loop: index of a read of S inside the loop (or the lower bound of the slice a `for` iterates)
     cursor: ast.AST | None = None
-    if isinstance(loop, ast.For) and isinstance(loop.iter, ast.Subscript) and isinstance(loop.iter.slice, ast.Slice) and U(loop.iter.value) == S \
-            and loop.iter.slice.lower is not None:
+    if isinstance(loop, ast.For) and isinstance(loop.iter, ast.Subscript) and isinstance(loop.iter.slice, ast.Slice) \
+            and _canon_str(f, loop.iter.value) == S and loop.iter.slice.lower is not None:
         cursor = loop.iter.slice.lower
     else:
         for x in ast.walk(loop):
-            if isinstance(x, ast.Subscript) and not isinstance(x.slice, ast.Slice) and U(x.value) == S and isinstance(x.ctx, ast.Load):
-                cursor = x.slice
+            rd_ = _as_read(x) if isinstance(x, (ast.Subscript, ast.Call)) else None
+            if rd_ is not None and _canon_str(f, rd_[0]) == S and isinstance(getattr(x, "ctx", ast.Load()), ast.Load):
+                cursor = rd_[1]
                 break
         if cursor is None:
             # the loop tests a character variable that is re-read by a helper / before the loop: use the index of the last read before it
@@ -905,7 +961,7 @@ def _count_relation(c: Ctx, f: Func, rd: Reaching, state, stmt: ast.AST, marker:
     for nd in vcfg.owner(first_read):
         env = vres.get(nd.id)
         if env is not None:
-            v_read = vn.val(first_read.slice, env, nd.id)
+            v_read = vn.val(fr[1], env, nd.id)          # type: ignore[index]
     if v_read is None:
         return "first read unreachable"
     head = next((nd for nd in vcfg.nodes if nd.ast is loop and nd.kind in ("join", "for", "test")), None)
